@@ -3,6 +3,8 @@ import Norad.Lemmas.C16Stable
 import Norad.Lemmas.C16Save
 import Norad.Lemmas.C16List
 import Norad.Lemmas.C16Order
+import Norad.Generated.StoreConsts
+import Norad.Lemmas.C16Plan
 /-!
 # C16 — data and image stores keep their invariants and their bytes
 
@@ -16,7 +18,7 @@ The clause "keys consist of normal components only" is NOT part of `Inv`: it is 
 guarded version is `normal_keys_partial`.
 -/
 namespace C16
-open Path StoreOrder
+open Path StoreOrder StorePlan AbsFS FontSave
 
 deriving instance DecidableEq for Except
 
@@ -457,6 +459,157 @@ theorem store_save_order_independent (s : Store) (h : Inv s)
     (hp2.pairwise_iff (fun {a b} => NonNested.symm)).1 hpw
   exact writeAll_lookup t _ hpw2 (destOf base w.key, w.bytes) (List.mem_map.2 ⟨w, hw, rfl⟩)
 
+/-! ## the same statements on the abstract file system of the FS family (C08/C09) -/
+
+/-- the plan for any list of writes whose keys are keys of the store, pairwise different by components -/
+theorem store_plan_runs_of (s : Store) (h : Inv s) (hplain : ∀ k ∈ keys s, (parse k).allNormal = true)
+    (t : APath) (fs : FS StoreOrder.Bytes) (ws : List WriteFile)
+    (hmemk : ∀ w ∈ ws, w.key ∈ keys s) (hdist : ws.Pairwise fun a b => parse a.key ≠ parse b.key)
+    (hT : ∀ m, m <+: t → m ≠ [] → isDir fs m = true)
+    (hfresh : ∀ q, (t ++ [storeDirName .data]) <+: q → node fs q = none) :
+    (storeWrites (t ++ [storeDirName .data]) ws).Pairwise NonNested ∧
+    ∃ fs', runEffs ((ws.map fun w => (parse w.key, w.bytes)).flatMap (planDataItem t)) fs = (none, fs') ∧
+      treeOf fs' = writeAll (treeOf fs) (storeWrites (t ++ [storeDirName .data]) ws) := by
+  let base := t ++ [storeDirName .data]
+  -- the plan is the list of `itemEffs`
+  have hplan : (ws.map fun w => (parse w.key, w.bytes)).flatMap (planDataItem t) =
+      (storeWrites base ws).flatMap itemEffs := by
+    unfold storeWrites
+    have : ∀ l : List WriteFile, (∀ w ∈ l, w.key ∈ keys s) →
+        (l.map fun w => (parse w.key, w.bytes)).flatMap (planDataItem t) =
+        (l.map fun w => (destOf base w.key, w.bytes)).flatMap itemEffs := by
+      intro l
+      induction l with
+      | nil => intro _; rfl
+      | cons w r ih =>
+        intro hm
+        simp only [List.map_cons, List.flatMap_cons]
+        rw [ih (fun x hx => hm x (List.mem_cons_of_mem _ hx)),
+          planDataItem_eq t w.key w.bytes (h.keysOK.relative _ (hm w (List.mem_cons_self ..)))
+            (hplain _ (hm w (List.mem_cons_self ..)))]
+    exact this ws hmemk
+  -- destinations are pairwise different and non-nested
+  have hpw : (storeWrites base ws).Pairwise NonNested := by
+    unfold storeWrites
+    rw [List.pairwise_map]
+    exact hdist.imp_of_mem (fun {a b} ha hb hab =>
+      ⟨dest_nonNested h hplain base (hmemk a ha) (hmemk b hb) hab,
+       dest_nonNested h hplain base (hmemk b hb) (hmemk a ha) (Ne.symm hab)⟩)
+  -- every entry is ready on the initial file system
+  have hready : ∀ w ∈ storeWrites base ws, Ready (treeOf fs) w := by
+    intro w hw
+    obtain ⟨x, hx, rfl⟩ := List.mem_map.1 hw
+    have hkx := hmemk x hx
+    have hbase : base <+: destOf base x.key := List.prefix_append _ _
+    have hnames := namesOf_ne_nil (h.keysOK.nonEmpty _ hkx) (h.keysOK.relative _ hkx) (hplain _ hkx)
+    refine ⟨by simp [destOf, base], ?_, ?_⟩
+    · intro m hm b
+      unfold below at hm
+      simp only [Bool.and_eq_true, bne_iff_ne, ne_eq] at hm
+      have hmp := List.isPrefixOf_iff_prefix.1 hm.1
+      rcases List.prefix_or_prefix_of_prefix hmp hbase with h3 | h3
+      · -- `m` is a prefix of `<target>/data`
+        rcases List.prefix_concat_iff.1 h3 with h4 | h4
+        · simp [treeOf, hfresh m (by rw [h4]; exact List.prefix_refl _)]
+        · by_cases hm0 : m = []
+          · subst hm0; simp [treeOf, node, conv]
+          · have := isDir_iff.1 (hT m h4 hm0)
+            simp [treeOf, this, conv]
+      · simp [treeOf, hfresh m h3]
+    · simp [treeOf, hfresh _ hbase]
+  refine ⟨hpw, ?_⟩
+  rw [hplan]
+  exact plan_runs _ hpw fs hready
+
+/-- **the store-writing plan of `Font::save` runs on the abstract file system of C08/C09 and leaves
+    `StoreOrder.writeAll`'s tree**: for a data store under the invariant with normal-component keys, on a
+    file system where the target directory exists and nothing is at or below `<target>/data` (the state
+    after the wipe and the earlier writes), the effects `d.flatMap (planDataItem t)` of
+    `FontSave.plan` all succeed, and the file system reached, seen as a tree, is
+    `writeAll (treeOf fs) (storeWrites <target>/data ws)`. -/
+theorem store_plan_runs (s : Store) (h : Inv s) (hplain : ∀ k ∈ keys s, (parse k).allNormal = true)
+    (t : APath) (fs : FS StoreOrder.Bytes) (ws : List WriteFile) (h1 : writesOf s = some ws)
+    (hT : ∀ m, m <+: t → m ≠ [] → isDir fs m = true)
+    (hfresh : ∀ q, (t ++ [storeDirName .data]) <+: q → node fs q = none) :
+    ∃ fs', runEffs ((ws.map fun w => (parse w.key, w.bytes)).flatMap (planDataItem t)) fs = (none, fs') ∧
+      treeOf fs' = writeAll (treeOf fs) (storeWrites (t ++ [storeDirName .data]) ws) := by
+  obtain ⟨hk, _⟩ := writesOf_spec s ws h1
+  have hmemk : ∀ w ∈ ws, w.key ∈ keys s := fun w hw => hk ▸ List.mem_map.2 ⟨w, hw, rfl⟩
+  have hdist : ws.Pairwise fun a b => parse a.key ≠ parse b.key := by
+    have := h.keysOK.distinct
+    unfold List.Nodup at this
+    rw [← hk, List.map_map, List.pairwise_map] at this
+    exact this
+  exact (store_plan_runs_of s h hplain t fs ws hmemk hdist hT hfresh).2
+
+/-- … hence, on that file system, every entry's file holds exactly the entry's bytes, and any other
+    order `ws₂` of the same plan (another `HashMap` order) also runs and reaches the same tree:
+    `save_writes_verbatim` and `store_save_order_independent` are statements about the file system the
+    C08/C09 theorems use -/
+theorem store_plan_eq_writeAll (s : Store) (h : Inv s) (hplain : ∀ k ∈ keys s, (parse k).allNormal = true)
+    (t : APath) (fs : FS StoreOrder.Bytes) (ws₁ ws₂ : List WriteFile) (h1 : writesOf s = some ws₁)
+    (hperm : ws₁.Perm ws₂)
+    (hT : ∀ m, m <+: t → m ≠ [] → isDir fs m = true)
+    (hfresh : ∀ q, (t ++ [storeDirName .data]) <+: q → node fs q = none) :
+    ∃ fs₁ fs₂,
+      runEffs ((ws₁.map fun w => (parse w.key, w.bytes)).flatMap (planDataItem t)) fs = (none, fs₁) ∧
+      runEffs ((ws₂.map fun w => (parse w.key, w.bytes)).flatMap (planDataItem t)) fs = (none, fs₂) ∧
+      treeOf fs₁ = treeOf fs₂ ∧
+      ∀ w ∈ ws₂, node fs₂ (destOf (t ++ [storeDirName .data]) w.key) = some (.file w.bytes) := by
+  obtain ⟨hk, _⟩ := writesOf_spec s ws₁ h1
+  have hmemk : ∀ w ∈ ws₁, w.key ∈ keys s := fun w hw => hk ▸ List.mem_map.2 ⟨w, hw, rfl⟩
+  have hdist : ws₁.Pairwise fun a b => parse a.key ≠ parse b.key := by
+    have := h.keysOK.distinct
+    unfold List.Nodup at this
+    rw [← hk, List.map_map, List.pairwise_map] at this
+    exact this
+  have hmemk2 : ∀ w ∈ ws₂, w.key ∈ keys s := fun w hw => hmemk w (hperm.mem_iff.2 hw)
+  have hdist2 : ws₂.Pairwise fun a b => parse a.key ≠ parse b.key :=
+    (hperm.pairwise_iff (fun {a b} (hab : parse a.key ≠ parse b.key) => Ne.symm hab)).1 hdist
+  obtain ⟨hpw1, f1, r1, t1⟩ := store_plan_runs_of s h hplain t fs ws₁ hmemk hdist hT hfresh
+  obtain ⟨hpw2, f2, r2, t2⟩ := store_plan_runs_of s h hplain t fs ws₂ hmemk2 hdist2 hT hfresh
+  refine ⟨f1, f2, r1, r2, ?_, ?_⟩
+  · rw [t1, t2]
+    exact writes_order_independent _ (hperm.map _) hpw1
+  · intro w hw
+    have := writeAll_lookup (treeOf fs) _ hpw2 (destOf (t ++ [storeDirName .data]) w.key, w.bytes)
+      (List.mem_map.2 ⟨w, hw, rfl⟩)
+    rw [← t2] at this
+    simp only [treeOf] at this
+    cases hn : node f2 (destOf (t ++ [storeDirName .data]) w.key) with
+    | none => rw [hn] at this; simp at this
+    | some n =>
+      rw [hn] at this
+      cases n with
+      | dir => simp [conv] at this
+      | file b => simp [conv] at this; rw [this]
+
+/-! ## source-level tie (constants re-extracted from `src/datastore.rs` / `src/font.rs` on every run) -/
+
+/-- the signature `Image::validate_entry` tests is the eight-byte PNG signature of the model -/
+theorem source_png_signature_matches_model : Generated.StoreConsts.pngSignature = pngSig := by decide
+
+/-- the directories the stores are listed from and written to are the model's -/
+theorem source_store_dirs_match_model :
+    Generated.StoreConsts.dataDir = storeDirName .data ∧
+    Generated.StoreConsts.imagesDir = storeDirName .image := by decide
+
+/-- the loop of `save_impl` before the wipe visits both stores, as `saveStores` does: an image entry
+    in error state refuses the save although the data store is clean -/
+theorem source_force_loop_covers_both_stores :
+    Generated.StoreConsts.forceLoopVisitsData = true ∧ Generated.StoreConsts.forceLoopVisitsImages = true ∧
+    (saveStores ⟨.data, [(['a'], .loaded [1])]⟩ ⟨.image, [(['b'], .error .invalidImage)]⟩
+        (fun _ => none) (fun _ => none)).2 = .refused ['b'] := by decide
+
+/-- the early returns of the two `validate_entry` are the model's, as sets of `StoreError` variants
+    (the order of independent early returns is not part of the property) -/
+theorem source_validate_clauses_match_model :
+    (Generated.StoreConsts.dataClauses.all fun v => (dataClauseErrs.map Err.variantName).contains v) = true ∧
+    ((dataClauseErrs.map Err.variantName).all fun v => Generated.StoreConsts.dataClauses.contains v) = true ∧
+    (Generated.StoreConsts.imageClauses.all fun v => (imageClauseErrs.map Err.variantName).contains v) = true ∧
+    ((imageClauseErrs.map Err.variantName).all fun v => Generated.StoreConsts.imageClauses.contains v) = true := by
+  decide
+
 /-! ## what is false of the code: `.` and `..` components, trailing separators (recorded findings) -/
 
 /-- FALSE on the tree (policy decision, shared with C09):
@@ -539,9 +692,8 @@ theorem store_accepts_trailing_separator_counterexample :
 
 /-! ## OPEN (stated, not proved — not counted as obligations)
 
-* the tie of `StoreOrder.writeEntry` (post-state of a *successful* `create_dir_all` + `write`) to the
-  kernel-level `AbsFS.mkdirAll`/`AbsFS.writeFile` of the FS family: success and post-state of those
-  two calls for a destination none of whose prefixes is a plain file.
+* the image half of the plan (`FontSave.planImages`: one `mkdir` of `<target>/images`, then plain writes)
+  on `AbsFS`; `store_plan_runs` covers the data half (`planDataItem`: `mkdirAll` + `write` per entry).
 * `iter`'s *forcing* is independent of the map order (each `get` touches only its own cell).
 -/
 
@@ -615,6 +767,13 @@ example : newStore .data [([['.', 'h']], .file), ([['.', 'c']], .dir), ([['.', '
       ([['.', '.', '.']], .file)] =
     .ok ⟨.data, [(['.', 'h'], .notLoaded), (['.', 'c', '/', 'x'], .notLoaded), (['.', '.', '.'], .notLoaded)]⟩ := by
   decide
+-- `store_plan_runs` is not vacuous: keys `a` and `b/c`, target `/t` existing and empty
+example :
+    let fs : FS StoreOrder.Bytes := [([['t']], .dir)]
+    let r := runEffs (([(⟨.data, ['a'], [1]⟩ : WriteFile), ⟨.data, ['b', '/', 'c'], [2]⟩].map
+      fun w => (parse w.key, w.bytes)).flatMap (planDataItem [['t']])) fs
+    r.1 = none ∧ node r.2 [['t'], ['d', 'a', 't', 'a'], ['b'], ['c']] = some (.file [2]) ∧
+    node r.2 [['t'], ['d', 'a', 't', 'a'], ['b']] = some .dir := by decide
 -- an error entry refuses the save; a clean store reaches the effects
 example : (saveStores ⟨.data, [(['a'], .notLoaded)]⟩ ⟨.image, []⟩ (fun _ => none) (fun _ => none)).2
     = .refused ['a'] := by decide
